@@ -284,7 +284,7 @@ def corpus_cases():
     return res
 
 
-def run_program_case(hbin, case, workdir, cid="c0"):
+def run_program_case(hbin, case, workdir, cid="900000"):
     """case: {w, decls, body, go, salt?} -> Case"""
     src = os.path.join(workdir, "p%s.go" % cid)
     open(src, "w").write(case["go"])
@@ -362,7 +362,7 @@ def run(rep):
         rep.coverage["je_is_stub_in_procbuilder"] = je_stub
 
         # ---- 1. corpus
-        for name, case in corpus_cases():
+        for cidx, (name, case) in enumerate(corpus_cases()):
             if case.get("kind") == "proto":
                 hl = run_harness(hbin, ["protoreplay", case["acts"]])
                 ol = run_oracle([l for l in hl if l.startswith("PROTO")])
@@ -371,7 +371,7 @@ def run(rep):
                     classify_proto(add_finding, kind, det, case["acts"])
                 stats["proto_scenarios"] += 1
             else:
-                c = run_program_case(hbin, case, workdir, "c" + name.split(".")[0].replace("-", ""))
+                c = run_program_case(hbin, case, workdir, str(900000 + cidx))   # the harness takes numeric ids
                 stats["programs"] += 1
                 handle_case(c, case["go"], case, None, add_finding, stats, distinct)
 
@@ -428,7 +428,11 @@ def run(rep):
                     break
             obj = {"property": PROP, "kind": "je-stub", "what": KF_TEXT[KF_JE]}
             if wit is not None:
-                obj.update({"go": go_source(gendir, wit.id), "w": wit.meta.get("w"), "assembly": wit.impl,
+                obj.update({"case": {"kind": "program", "w": wit.meta.get("w"), "decls": wit.meta.get("decls"),
+                                     "body": (wit.prog or "").split(" body=", 1)[-1], "go": go_source(gendir, wit.id),
+                                     "salt": wit.meta.get("salt", 0), "nin": wit.meta.get("nin", 0),
+                                     "nout": wit.meta.get("nout", 1)},
+                            "go": go_source(gendir, wit.id), "w": wit.meta.get("w"), "assembly": wit.impl,
                             "goEval": wit.src, "machine_with_noop_je": wit.irun_jenop,
                             "machine_with_intended_je": wit.irun})
             add_finding(KF_JE, "je-stub", obj)
@@ -602,14 +606,22 @@ def replay(rep, path):
         for kind, det in judge_proto(pm, [l for l in hl if l.startswith("PIMPL")]):
             classify_proto(add_finding, kind, det, case["acts"])
         rep.coverage.update({"evaluations": 1, "samples": [case, hl]})
+    elif obj.get("kind") == "je-stub" and case.get("kind") == "program":
+        je_stub = any(l.strip() == "JE stub=1" for l in run_harness(hbin, ["probeje"]))
+        c = run_program_case(hbin, case, workdir, "999999")
+        rep.coverage.update({"evaluations": 1, "samples": [{"go": case["go"], "assembly": c.impl, "goEval": c.src,
+                                                            "machine_with_noop_je": c.irun_jenop, "je_stub": je_stub}]})
+        if je_stub and c.src and c.irun_jenop and sem_verdict(c.src, c.irun_jenop) == "differ":
+            add_finding(KF_JE, "je-stub", {"property": PROP, "kind": "je-stub", "what": KF_TEXT[KF_JE], "case": case,
+                                           "goEval": c.src, "machine_with_noop_je": c.irun_jenop})
     elif case.get("kind") == "program" or obj.get("go"):
         if not case:
             case = {"kind": "program", "w": obj.get("w", 8), "decls": "-", "body": "skip", "go": obj["go"]}
-        c = run_program_case(hbin, case, workdir, "r0")
+        c = run_program_case(hbin, case, workdir, "999999")
         handle_case(c, case["go"], case, None, add_finding, stats, distinct)
         if obj.get("VERIF_SCHED_SEED") is not None:
             bondgo = vlib.go_build_repo("bondgo")
-            srcp = os.path.join(workdir, "pr0.go")
+            srcp = os.path.join(workdir, "p999999.go")
             st, txt, det = run_cli(bondgo, srcp, case.get("w", 8), obj["VERIF_SCHED_SEED"], obj.get("GOMAXPROCS", 1), workdir)
             if st == "hang":
                 add_finding(KF_NOTIFY if det.get("assigner_blocked_in_chan_send") else None, "hang",
@@ -625,5 +637,5 @@ def replay(rep, path):
         if (kfid or kind) in seen:
             continue
         seen.add(kfid or kind)
-        real = kind in ("hang", "semantics", "impl-panic", "nondeterministic-output", "incdec-scope", "faulty")
+        real = kind in ("hang", "semantics", "impl-panic", "nondeterministic-output", "incdec-scope", "faulty", "je-stub")
         rep.violation(o, no_failing_input=not real, tag="finding=" + (kfid or kind))
